@@ -39,11 +39,9 @@ theorem emit_own_node (res : Bool) (i : Info) (kids rest : Forest) (n : Nat) (rg
   | false =>
     refine ⟨{ rg with aid := n }, ?_⟩
     simp only [emit, block, pre, post, Bool.false_eq_true, if_false, emit_own_next, List.append_nil, Nat.add_zero]
-    simp
   | true =>
     refine ⟨{ rg with aid := n, mid := n + 2 }, ?_⟩
     simp only [emit, block, pre, post, Bool.false_eq_true, if_false, if_true, emit_own_next]
-    simp [Nat.add_assoc]
 
 theorem jobs_node (res : Bool) (i : Info) (kids rest : Forest) (n : Nat) :
     jobs res (.node i kids rest) n
